@@ -46,10 +46,19 @@ def case_eq(t1, t2, rel):
     return "eq =%s =%s %s %s" % (esc(t1), esc(t2), uw_field(t1, t2), rel)
 
 
+def case_m(text, spec):
+    return "m =%s %s %s" % (esc(text), uw_field(text), spec)
+
+
+META_VALUES = {"T": True, "1": 1, "x": "x", "F": False, "0": 0, "E": "", "N": None}   # "A" = absent
+
+
 def parse_case(case):
     w = case.split()
     if w[0] == "c":
         return "c", unesc(w[1][1:]), None, None
+    if w[0] == "m":
+        return "m", unesc(w[1][1:]), w[3], None
     return "eq", unesc(w[1][1:]), unesc(w[2][1:]), (w[4] if len(w) > 4 else "none")
 
 
